@@ -63,7 +63,9 @@ StuckS(st) == /\ QuiescentS(st) /\ ~st.stopped
 PropFlags(post, p, e) ==
      (IF \E d \in Dest : OutOf(post.wire[d], post.q[d]) # OutOf(p.wire[d], p.q[d]) THEN {"content"} ELSE {})
 \cup (IF p.drops # post.drops THEN {"drops"} ELSE {})
-\cup (IF p.fake # post.fake THEN {"fake"} ELSE {})
+\* (after the orderly stop has begun the manager is being dismantled: what a removal re-routes then has nowhere to go -
+\* listed finding F19, reported under its own flag)
+\cup (IF p.fake # post.fake THEN {IF s.stopped /\ e.e \in {"ConnLost", "ConnFailed"} THEN "fake-stop" ELSE "fake"} ELSE {})
 \cup (IF \E d \in Dest : \E k \in 1..Len(p.wire[d]) : Len(p.wire[d][k]) < 1 \/ Len(p.wire[d][k]) > MaxPerMsg
         THEN {"batch"} ELSE {})
 \* a connection began to close in this callback while its queue still held datapoints, or bytes were written to a
@@ -85,7 +87,13 @@ PropFlags(post, p, e) ==
          /\ \E k \in 1..Len(Ov(e)) : e.arg \in Ov(e)[k]
         THEN {"misrouted"} ELSE {})
 \* a destination that still holds queued datapoints is never given up: it is connected, connecting or waiting to retry
-\cup (IF \E d \in Dest : p.cs[d] = "stopped" /\ p.q[d] # <<>> THEN {"abandoned"} ELSE {})
+\cup (IF \E d \in Dest : p.cs[d] = "stopped" /\ p.q[d] # <<>>
+                          /\ (s.cs[d] # "stopped" \/ (Len(p.q[d]) > Len(s.q[d]) /\ ~s.stopped))
+        THEN {"abandoned"} ELSE {})
+\* ... a destination that had ALREADY finished its orderly stop can still be handed datapoints by a removal that happens
+\* during the stop (F19)
+\cup (IF \E d \in Dest : p.cs[d] = "stopped" /\ s.cs[d] = "stopped" /\ Len(p.q[d]) > Len(s.q[d]) /\ s.stopped
+        THEN {"abandoned-stop"} ELSE {})
 \cup (IF StuckS(Overlay(post, p)) THEN {"stuck"} ELSE {})
 \cup (IF ~SendScheduledS(Overlay(post, p)) THEN {"undelivered"} ELSE {})
 
